@@ -95,7 +95,7 @@ impl Parser {
                         Spacing::Joint => Ok(Value::Symbol(self.parse_identifier(c.to_string()))),
                         Spacing::Alone => match c {
                             '-' => match self.peek() {
-                                Some(TokenTree::Literal(lit)) => {
+                                Some(TokenTree::Literal(lit)) if is_numeric_literal(lit) => {
                                     let lit = lit.clone();
                                     self.eat_token();
                                     Ok(Value::Negated(lit))
@@ -103,7 +103,7 @@ impl Parser {
                                 _ => Ok(Value::Symbol(c.to_string())),
                             },
                             ':' => match self.peek() {
-                                Some(TokenTree::Literal(lit)) => {
+                                Some(TokenTree::Literal(lit)) if is_string_literal(lit) => {
                                     let name = string_literal(lit)?;
                                     self.eat_token();
                                     Ok(Value::Keyword(name))
@@ -214,6 +214,14 @@ fn is_identifier_punct(c: char) -> bool {
             | '^'
             | '~'
     )
+}
+
+fn is_numeric_literal(lit: &Literal) -> bool {
+    lit.to_string().starts_with(|c: char| c.is_ascii_digit())
+}
+
+fn is_string_literal(lit: &Literal) -> bool {
+    lit.to_string().starts_with('"')
 }
 
 fn string_literal(lit: &Literal) -> Result<String, ParseError> {
